@@ -18,7 +18,7 @@ func init() {
 func c17(r *rng, tier string, o *out) {
 	n := 400
 	if tier == "thorough" {
-		n = 20000
+		n = 60000
 	}
 	for c := 0; c < n; c++ {
 		depth := r.intn(4)
